@@ -92,6 +92,11 @@ inductive Obs where
   | fqueue (q : Nat) (n : Int)
   | crash (msg : String)
   | tick
+  | adapter (g a : Nat) (op : String) (arg : String) (res : List String)   -- one call of the recording adapter
+  | recover                                      -- the process died; what follows is a fresh process on the same adapters
+  | fadapter (a : Nat) (pending unacked acked : List String)
+  | fconsumer (c : Nat) (submitted completed : Int)
+  | enterAt (c k : Nat)                          -- worker function of consumer c entered for payload k
   deriving DecidableEq, Repr, Inhabited
 
 /-- Program parameters the predicates need (parsed from the `P` line). -/
